@@ -227,6 +227,8 @@ func checkC17(c *Ctx) {
 	// data-driven assertions: operand's static type is the empty interface
 	checkDataAssertions(c, pk)
 	checkSchemaTypeInvariant(c, pk, reviewedHit["processSchema › index › param.Schema"])
+	checkCollectionPasses(c, pk)
+	checkResponsePrecedence(c, pk)
 
 	// ---- R2 regexp arity; R4 tagger agreement
 	taggers := collectTaggers(c, pk, m)
@@ -462,13 +464,15 @@ func checkSchemaTypeInvariant(c *Ctx, pk *packages.Package, needed bool) {
 				if strings.HasSuffix(l, ".Schema") {
 					allocs = true
 				}
-				if strings.HasSuffix(l, ".Schema.Type") {
-					if cl, ok := ast.Unparen(as.Rhs[0]).(*ast.CompositeLit); ok && len(cl.Elts) == 1 {
-						setsType = true
-					}
-				}
 				return true
 			})
+			// the Type store must be an unconditional statement of the arm: one nested in a branch
+			// leaves Type empty on the other branches
+			if as, ok := st.(*ast.AssignStmt); ok && len(as.Lhs) == 1 && len(as.Rhs) == 1 && strings.HasSuffix(goan.ExprString(as.Lhs[0]), ".Schema.Type") {
+				if cl, ok := ast.Unparen(as.Rhs[0]).(*ast.CompositeLit); ok && len(cl.Elts) == 1 {
+					setsType = true
+				}
+			}
 		}
 		if allocs {
 			n++
@@ -709,5 +713,115 @@ func checkSetterSiblings(c *Ctx, pk *packages.Package, info *types.Info) {
 		}
 		c.Check(okAll, rule, fmt.Sprintf("codescan.%s.%s", recv, fd.Name.Name), c.posOf(pk, fd.Pos()), "stores "+strings.Join(want, ", "),
 			fmt.Sprintf("%s.%s stores %v, expected exactly %v", recv, fd.Name.Name, got, want))
+	}
+}
+
+// checkCollectionPasses: typeIndex.processPackage collects each kind of path annotation in its
+// own pass over the comment groups; a pass that collects two kinds must not `continue`, which
+// would let the outcome for one kind skip the other.
+func checkCollectionPasses(c *Ctx, pk *packages.Package) {
+	rule := "C17.R6.collection"
+	c.Rule(rule, "swagger:operation and swagger:route annotations are collected independently of each other; a named response takes precedence over a model of the same name", 3)
+	fd := load.FuncDecl(pk, "typeIndex.processPackage")
+	if fd == nil {
+		c.Anchor(rule, "codescan.typeIndex.processPackage", "not found")
+		return
+	}
+	seen := map[string]bool{}
+	ast.Inspect(fd.Body, func(n ast.Node) bool {
+		rs, ok := n.(*ast.RangeStmt)
+		if !ok || goan.LastSel(rs.X) != "Comments" {
+			return true
+		}
+		targets := map[string]bool{}
+		conts := 0
+		var walk func(n ast.Node)
+		walk = func(n ast.Node) {
+			ast.Inspect(n, func(m ast.Node) bool {
+				switch x := m.(type) {
+				case *ast.RangeStmt, *ast.ForStmt:
+					if m != n {
+						return false // `continue` inside an inner loop belongs to it
+					}
+				case *ast.FuncLit:
+					return false
+				case *ast.BranchStmt:
+					if x.Tok == token.CONTINUE {
+						conts++
+					}
+				case *ast.AssignStmt:
+					if len(x.Lhs) == 1 && len(x.Rhs) == 1 {
+						if call, ok := x.Rhs[0].(*ast.CallExpr); ok && goan.IsBuiltinCall(pk.TypesInfo, call, "append") {
+							if se, ok := x.Lhs[0].(*ast.SelectorExpr); ok {
+								targets[se.Sel.Name] = true
+							}
+						}
+					}
+				}
+				return true
+			})
+		}
+		walk(rs)
+		var ts []string
+		for t := range targets {
+			ts = append(ts, t)
+			seen[t] = true
+		}
+		sort.Strings(ts)
+		ok = len(ts) <= 1 || conts == 0
+		c.Check(ok, rule, fmt.Sprintf("codescan.typeIndex.processPackage › pass over file.Comments collecting %v", ts), c.posOf(pk, rs.Pos()), "one kind per pass (or no continue)",
+			fmt.Sprintf("one loop collects %v and contains %d `continue` statements: a comment group that is not a valid annotation of the first kind skips the collection of the other kind, which silently disappears from the document", ts, conts))
+		return true
+	})
+	for _, want := range []string{"Operations", "Routes"} {
+		c.Check(seen[want], rule, "codescan.typeIndex.processPackage › collects "+want, c.posOf(pk, fd.Pos()), "collected from file.Comments", want+" are no longer collected from the comment groups of a file")
+	}
+}
+
+// checkResponsePrecedence: in setOpResponses.Parse an untagged reference is turned into a
+// definition reference only when no swagger:response of that name exists.
+func checkResponsePrecedence(c *Ctx, pk *packages.Package) {
+	rule := "C17.R6.collection"
+	fd := load.FuncDecl(pk, "setOpResponses.Parse")
+	if fd == nil {
+		c.Anchor(rule, "codescan.setOpResponses.Parse", "not found")
+		return
+	}
+	info := pk.TypesInfo
+	n := 0
+	goan.WalkGuards(info, fd.Body, func(nd ast.Node, guards []goan.Lit, _ []ast.Stmt) {
+		as, ok := nd.(*ast.AssignStmt)
+		if !ok || len(as.Lhs) != 1 || len(as.Rhs) != 1 || !goan.IsIdent(as.Rhs[0], "true") {
+			return
+		}
+		id, ok := as.Lhs[0].(*ast.Ident)
+		if !ok || !strings.Contains(strings.ToLower(id.Name), "definitionref") {
+			return
+		}
+		n++
+		guarded := false
+		for _, g := range guards {
+			gid, ok := ast.Unparen(g.E).(*ast.Ident)
+			if !ok || g.Pos {
+				continue
+			}
+			if obj, _ := info.Uses[gid].(*types.Var); obj != nil {
+				for _, a := range goan.AssignmentsTo(info, fd.Body, obj) {
+					if a.Stmt == nil {
+						continue
+					}
+					if st, ok := a.Stmt.(*ast.AssignStmt); ok && len(st.Rhs) == 1 {
+						if ix, ok := st.Rhs[0].(*ast.IndexExpr); ok && goan.LastSel(ix.X) == "responses" && st.Pos() < as.Pos() {
+							guarded = true
+						}
+					}
+				}
+			}
+		}
+		c.Check(guarded, rule, "codescan.setOpResponses.Parse › definition fallback only when no response of that name exists", c.posOf(pk, as.Pos()), "under `_, ok := ss.responses[name]; !ok`",
+			"an untagged response reference is resolved to a model without first looking the name up among the swagger:response declarations: a response and a model sharing a name make the operation lose the declared response (headers, description)")
+	})
+	if n == 0 {
+		c.Unk(rule, "codescan.setOpResponses.Parse › definition fallback", c.posOf(pk, fd.Pos()), "the `isDefinitionRef = true` fallback was not found (anchor)")
 	}
 }
